@@ -8,6 +8,7 @@
 #include <BayesFilters/SimulatedStateModel.h>
 
 #include <iostream>
+#include <stdexcept>
 
 using namespace bfl;
 using namespace Eigen;
@@ -22,6 +23,9 @@ SimulatedStateModel::SimulatedStateModel
     simulation_time_(simulation_time),
     state_model_(std::move(state_model))
 {
+    if (simulation_time_ == 0)
+        throw std::runtime_error("ERROR::SIMULATEDSTATEMODEL::CTOR\nERROR:\n\tThe simulation time must be at least 1.");
+
     target_ = MatrixXd(initial_state.rows(), simulation_time_);
     target_.col(0) = initial_state;
 
